@@ -1,0 +1,86 @@
+//go:build verif
+// +build verif
+
+package client
+
+// Thin wrappers over the unexported endpoint selection state for the runtime
+// monitors in /verif (build tag "verif" only).
+
+// VerifEndpoint is a copy of an endpoint's observable flags.
+type VerifEndpoint struct {
+	URL       string
+	IsPrimary bool // node type recorded on the endpoint
+	Dead      bool
+}
+
+// VerifTopology wraps the client's topology.
+type VerifTopology struct {
+	t *topology
+}
+
+func VerifNewTopology(attemptToRevive bool) *VerifTopology {
+	return &VerifTopology{newTopology(attemptToRevive)}
+}
+
+// VerifTopology returns the live topology of a client.
+func (c *HTTPClient) VerifTopology() *VerifTopology {
+	return &VerifTopology{c.topology}
+}
+
+func (v *VerifTopology) Update(primaryNode string, secondaries ...string) {
+	v.t.Update(primaryNode, secondaries...)
+}
+
+func (v *VerifTopology) NextReadEndpoint(pref ReadPref) (string, error) {
+	e, err := v.t.NextReadEndpoint(pref)
+	if err != nil {
+		return "", err
+	}
+	return e.URL(), nil
+}
+
+// Primary returns the believed primary's url ("" if none) and the topology's verdict.
+func (v *VerifTopology) Primary() (string, error) {
+	e, err := v.t.Primary()
+	if e == nil {
+		return "", err
+	}
+	return e.URL(), err
+}
+
+func (v *VerifTopology) each(url string, f func(e *endpoint)) {
+	v.t.Lock()
+	eps := append([]*endpoint{}, v.t.endpoints...)
+	p := v.t.primary
+	v.t.Unlock()
+	seen := false
+	for _, e := range eps {
+		if e.URL() == url {
+			f(e)
+			if e == p {
+				seen = true
+			}
+		}
+	}
+	if p != nil && !seen && p.URL() == url {
+		f(p)
+	}
+}
+
+func (v *VerifTopology) MarkDead(url string)  { v.each(url, func(e *endpoint) { e.MarkAsDead() }) }
+func (v *VerifTopology) MarkAlive(url string) { v.each(url, func(e *endpoint) { e.MarkAsAlive() }) }
+
+// Endpoints returns a copy of the endpoint list (the order used for round-robin).
+func (v *VerifTopology) Endpoints() []VerifEndpoint {
+	v.t.Lock()
+	eps := append([]*endpoint{}, v.t.endpoints...)
+	v.t.Unlock()
+	out := make([]VerifEndpoint, 0, len(eps))
+	for _, e := range eps {
+		out = append(out, VerifEndpoint{URL: e.URL(), IsPrimary: e.IsPrimary(), Dead: e.IsDead()})
+	}
+	return out
+}
+
+func (v *VerifTopology) HasActivePrimary() bool  { return v.t.HasActivePrimary() }
+func (v *VerifTopology) HasActiveEndpoint() bool { return v.t.HasActiveEndpoint() }
